@@ -157,6 +157,7 @@ func (x *fx) instr(in ssa.Instruction) {
 		m := x.val(i.Map)
 		x.safety("nilmap-write", x.describe(i.Map), fmt.Sprintf("(not (= %s 0))", m), i.Pos())
 		x.mapKeyHashable(i.Key, i.Pos())
+		x.writeTarget(m, x.describe(i.Map), i.Pos())
 		x.mapStore(st, i.Map.Type(), m, x.val(i.Key), x.val(i.Value))
 	case *ssa.Range:
 		if _, ok := i.X.Type().Underlying().(*types.Map); ok {
@@ -180,6 +181,7 @@ func (x *fx) instr(in ssa.Instruction) {
 		if _, interior := x.lvs[i.Addr]; !interior {
 			x.safety("nil-deref", x.describe(i.Addr), fmt.Sprintf("(not (= %s 0))", lv.ref), i.Pos())
 		}
+		x.writeTarget(lv.ref, x.describe(i.Addr), i.Pos())
 		x.store(st, lv, x.val(i.Val))
 	case *ssa.TypeAssert:
 		x.typeAssert(i)
@@ -244,6 +246,9 @@ func (x *fx) valsOf(vs []ssa.Value) []Term {
 
 // unknownEffect applies a havoc to the current state.
 func (x *fx) unknownEffect(eff *Effects) {
+	if x.e.wfree && eff.All {
+		x.e.oblig("write-target", "write-target:unknown-effect", x.e.writeProps, x.curReach, "false", "", "effect with unknown written objects: "+eff.Why)
+	}
 	x.registerEffects(eff)
 	sp := x.specOf(eff, eff.Why)
 	if eff.All {
